@@ -524,3 +524,4 @@ class C17(Base):
 
 
 P = C17()
+P.RULE = P.RULE + ' In one case out of seven the source yields two bundles per locale (upper-case mode letter; same observations).'
